@@ -97,7 +97,10 @@ def step (st : DState) (toks : List String) : DState × String :=
         | _ => none
       match op, rest with
       | some op, _ => ({ st with w := st.w.step op }, "ok")
-      | none, ["tnotify", b] => (st, Proto.showNatList (st.w.reachTunnel (b == "1")))
+      | none, ["tnotify", b, p] =>
+          match p.toNat? with
+          | some p => (st, Proto.showNatList (st.w.reachTunnel p (b == "1")))
+          | none => (st, "bad-op")
       | none, ["driven"] => (st, Proto.showNatList st.w.tunnelRef.toList)
       | none, ["notify", p] =>
           match p.toNat? with
